@@ -26,6 +26,35 @@ Theorem C18_every_listener_closed_at_zero : forall wait srvs s l,
 Proof. exact every_listener_closed_at_zero. Qed.
 Print Assumptions C18_every_listener_closed_at_zero.
 
+(* ... for ALL servers that were started, not only those the registry still holds: serve() keys the
+   registry by the configured listen address, so with pairwise distinct configured addresses
+   every started server is reached by Shutdown (and its duration is the one of [shutdown]).
+   A registry keyed by the port alone would lose one of two listeners on the same port of two
+   local addresses, which then accepts for ever. *)
+Theorem C18_listeners_closed_first_all_started : forall wait started r t,
+  NoDup (map fst started) ->
+  In r (run_started grpc_prog key_configured wait started) -> started_accepts r t = false.
+Proof. exact listeners_closed_first_all_started. Qed.
+Print Assumptions C18_listeners_closed_first_all_started.
+
+Theorem C18_all_started_are_reached : forall gp wait started,
+  NoDup (map fst started) ->
+  run_started gp key_configured wait started = map (fun p => Some (run_server gp wait (snd p))) started.
+Proof. exact all_started_are_reached. Qed.
+Print Assumptions C18_all_started_are_reached.
+
+Theorem C18_started_ret_is_shutdown_ret : forall wait started,
+  NoDup (map fst started) ->
+  started_ret (run_started grpc_prog key_configured wait started) = g_ret (shutdown wait (map snd started)).
+Proof. exact started_ret_is_shutdown_ret. Qed.
+Print Assumptions C18_started_ret_is_shutdown_ret.
+
+Theorem C18_port_only_key_refuted :
+  exists started, NoDup (map fst started) /\
+    exists r, In r (run_started grpc_prog key_port_only 300 started) /\ forall t, started_accepts r t = true.
+Proof. exact port_only_key_refuted. Qed.
+Print Assumptions C18_port_only_key_refuted.
+
 (* 2. Every open item that needs no more than the wait ends by itself ([Done n], not cut) and
       does so before proxy.Shutdown returns (so before main.go lets the process exit). *)
 Theorem C18_inflight_within_wait_complete : forall wait srvs s l n,
